@@ -274,4 +274,32 @@ theorem indexed_mem {α : Type} : ∀ (rows : List (Row α)) (idx : Nat) (ir : N
         have : ir.1 - idx = (ir.1 - (idx + 1)) + 1 := by omega
         rw [this, List.getElem?_cons_succ] at h2; exact h2
 
+/-! ### small facts used by the property file -/
+
+theorem hasInf_castDgm (cast : K → K) (ds : List (Dgm K)) :
+    hasInf (ds.map (castDgm cast)) = hasInf ds := by
+  unfold hasInf castDgm
+  rw [← List.map_flatten, List.any_map]
+  congr 1
+  funext p
+  cases h : p.2 <;> simp [h]
+
+/-- the labelled artists in insertion order — what `Axes.legend` lists -/
+def labelsOf : List (Artist K) → List String
+  | [] => []
+  | .scatter _ _ l :: as => l :: labelsOf as
+  | .line _ _ _ _ (some l) :: as => l :: labelsOf as
+  | .line _ _ _ _ none :: as => labelsOf as
+
+theorem labelsOf_append (a b : List (Artist K)) : labelsOf (a ++ b) = labelsOf a ++ labelsOf b := by
+  induction a with
+  | nil => rfl
+  | cons x t ih =>
+    cases x with
+    | scatter ax pts l => simp [labelsOf, ih]
+    | line ax xs ys st l => cases l <;> simp [labelsOf, ih]
+
+theorem isOk_iff {ε α : Type} (e : Except ε α) : e.isOk = true ↔ ∃ a, e = .ok a := by
+  cases e <;> simp [Except.isOk, Except.toBool]
+
 end PersimVerif.Plot
